@@ -113,10 +113,21 @@ type Noise struct {
 	// module text then starts with `%a1 = type i32`, `%a2 = type %a1`, ... and every use of the type is
 	// spelled with the last name of the chain (LLVM reads such non-struct aliases as the type itself).
 	TypeAlias map[string][]string
-	Indent    string
+	// LeadingZeros: numbers of unnamed values are written with redundant leading zeros (%01, 002:, @00)
+	LeadingZeros bool
+	// VecAlias: vector types are spelled through named aliases (`%$v0 = type <4 x i32>`), up to six per
+	// module, created on first use while the text is rendered and defined at the top of the text.
+	VecAlias bool
+	Indent   string
 }
 
 var noise Noise
+
+// vector aliases created while rendering (see Noise.VecAlias)
+var (
+	vecAlias     = map[string]string{}
+	vecAliasDefs []string
+)
 
 // QuoteName spells a name for use after a sigil: bare when LLVM allows, else quoted with \XX escapes.
 func QuoteName(name string) string {
@@ -167,10 +178,24 @@ func (t *Type) String() string {
 		}
 		return t.Elem.String() + "*"
 	case Vec:
+		var v string
 		if t.Scalable {
-			return fmt.Sprintf("<vscale x %d x %s>", t.Len, t.Elem)
+			v = fmt.Sprintf("<vscale x %d x %s>", t.Len, t.Elem)
+		} else {
+			v = fmt.Sprintf("<%d x %s>", t.Len, t.Elem)
 		}
-		return fmt.Sprintf("<%d x %s>", t.Len, t.Elem)
+		if noise.VecAlias && !t.Scalable {
+			if name, ok := vecAlias[v]; ok {
+				return "%" + QuoteName(name)
+			}
+			if len(vecAlias) < 6 {
+				name := fmt.Sprintf("$v%d", len(vecAlias))
+				vecAlias[v] = name
+				vecAliasDefs = append(vecAliasDefs, fmt.Sprintf("%%%s = type %s", QuoteName(name), v))
+				return "%" + QuoteName(name)
+			}
+		}
+		return v
 	case Array:
 		return fmt.Sprintf("[%d x %s]", t.Len, t.Elem)
 	case Struct:
